@@ -685,6 +685,41 @@ def r4_fir(ctx, p):
                     why = w or "the fold runs over %s%s" % (show(rng)[:60], "" if after else " and is not after the sweep")
             else:
                 why = "the fold step is %s" % show(rv)[:80]
+    if not oky and r0[0] == "call" and r0[1].endswith("::fold") and len(r0[2]) == 3:
+        # d.iter().enumerate().skip(2).fold(0.0, |y, (i, di)| y + di*b[i]): the items are
+        # (i, d[i]) for i = 2 .. len(d), in order
+        rng, ini, clo = r0[2]
+        cb = p.bodies.get(clo[1][len("closure:"):]) if clo[0] == "agg" and str(clo[1]).startswith("closure:") else None
+        if cb is not None and ini[0] == "c" and ini[1] == 0 and rng[0] == "call" and rng[1].endswith("Iterator::skip") and len(rng[2]) == 2 \
+                and rng[2][0][0] == "call" and rng[2][0][1].endswith("Iterator::enumerate") and len(rng[2][0][2]) == 1:
+            from ..loops import rewrite
+            fline = rng[2][0][2][0]
+            while fline[0] == "call" and len(fline[2]) == 1 and fline[1].rsplit("::", 1)[-1] in ("iter", "into_iter", "deref", "as_slice"):
+                fline = fline[2][0]
+            item = ("arg", 3, cb.local_name(3))
+            rv = resolve_upvars(p, cb, ExprBuilder(cb).local(0))
+
+            def sub(n):
+                if n == ("field", item, "1"):
+                    return ("idx", fline, ("sym", "FOLD_I"))
+                if n == ("field", item, "0"):
+                    return ("sym", "FOLD_I")
+                return None
+            rv = rewrite(rv, sub)
+            if rv[0] == "bin" and rv[1] == "Add" and (rv[2][0] == "arg" and rv[2][1] == 2 or rv[3][0] == "arg" and rv[3][1] == 2):
+                term = rv[3] if (rv[2][0] == "arg" and rv[2][1] == 2) else rv[2]
+
+                def ipoly2(e):
+                    return Poly.atom(("I",)) if e == ("sym", "FOLD_I") else None
+                ip, base, w = summand(term, ipoly2)
+                fold_bb = [bb for bb, t in b.calls() if t["callee"]["k"] == "fndef" and cm.callee_name(t["callee"]).endswith("::fold")]
+                after = len(fold_bb) == 1 and (any(g[0] == "none" for g in paths.guards(b, fold_bb[0], eb)) or (_dom(b, sbb, fold_bb[0]) and not b.can_reach(fold_bb[0], sbb)))
+                if ip is not None and ip == Poly.atom(("I",)) and is_line(fline) and syms.poly(rng[2][1]) == Poly.const(2) and after:
+                    oky = True
+                else:
+                    why = w or "the fold runs over %s%s" % (show(rng)[:60], "" if after else " and is not after the sweep")
+            else:
+                why = "the fold step is %s" % show(rv)[:80]
     if oky:
         ctx.ok(RULE, "y = sum_{i=2}^{len-1} d[i]*b[i], after the sweep", b.loc())
     else:
@@ -1001,6 +1036,11 @@ def _r5_mc2b(ctx, p, RULE):
         return
     meb = ExprBuilder(m)
     ret = meb.local(0)
+    if ret[0] == "var" and isinstance(ret[1], int):
+        # an early `return coefficients` next to the final one: the same buffer on every path
+        ds = meb.def_exprs_deep(ret[1])
+        if ds and len({canon(d) for d in ds}) == 1:
+            ret = ds[0]
     msy = LoopSyms(lambda e: ("sym", "LEN") if e[0] == "len" and show(e[1]) == "self" else None)
     LEN = Poly.atom(("sym", "LEN"))
     one = Poly.const(1)
